@@ -56,6 +56,8 @@ func verifStub_describeTag(tag string) string                               { re
 
 // strconv.Atoi on an atom: an uninterpreted partial function
 func verifStub_strconv_Atoi(s string) (int, error) {
+	// what strconv.Atoi accepts is a decimal that fits an int, which yaml.v3 decodes into an int field as well
+	verifAssume(verifOr(!verifPred("atoiOK", s), verifPred("yamlNumberFitsInt", s)))
 	if verifPred("atoiOK", s) {
 		return verifFnInt("atoi", s), nil
 	}
